@@ -167,7 +167,7 @@ def finish(prop, tier, seed, repo, hs, results, extra, wall, args):
                 conc_distinct += b.get("distinct", 0)
                 if b.get("samples") and len(samples) < 10:
                     samples.append({"standin": b["name"], "case": b["samples"][0]})
-                for vv in b.get("violations", [])[:3]:
+                for vv in b.get("violations", [])[:200]:
                     vv = dict(vv, name=b["name"])
                     violations.append({"obligation": "%s.bounded.%s" % (prop, b["name"]), "harness": None, "inputs": vv.get("inputs"), "confirmed": True,
                                        "kind": "bounded", "case": vv, "detail": "bounded stand-in %s: %s" % (b["name"], vv.get("detail")), "solver_output": None})
@@ -179,14 +179,6 @@ def finish(prop, tier, seed, repo, hs, results, extra, wall, args):
                 if tier == "quick" and baseline[n].get("tier") == "thorough":
                     continue
                 undecided.append({"obligation": n, "reason": "obligation of the baseline was not generated on this tree (contract stale or code left the path)"})
-    # one report per obligation
-    seen_ob = set()
-    uniq = []
-    for v in violations:
-        if v["obligation"] not in seen_ob:
-            seen_ob.add(v["obligation"])
-            uniq.append(v)
-    violations = uniq
     # known findings
     fired = []
     kept = []
@@ -200,7 +192,15 @@ def finish(prop, tier, seed, repo, hs, results, extra, wall, args):
         else:
             kept.append(v)
     violations = kept
-    for k in {k["id"]: k for k in fired}.values():
+    # one report per obligation
+    seen_ob = set()
+    uniq = []
+    for v in violations:
+        if v["obligation"] not in seen_ob:
+            seen_ob.add(v["obligation"])
+            uniq.append(v)
+    violations = uniq
+    for k in {(k["id"], json.dumps(k.get("region"), sort_keys=True)): k for k in fired}.values():
         print("KNOWN-FINDING: property=%s %s" % (prop, k["what_fails"]))
     discharged = sum(1 for o in ob_rows if o["status"] == "discharged")
     # ------------------------------------------------------------------ output
@@ -242,8 +242,9 @@ def _in_region(k, v):
     if not reg:
         return True
     case = v.get("case") or {}
+    inner = case.get("inputs") if isinstance(case.get("inputs"), dict) else {}
     for key, val in reg.items():
-        if case.get(key) != val:
+        if case.get(key, inner.get(key)) != val:
             return False
     return True
 
